@@ -1233,6 +1233,99 @@ impl Run {
         None
     }
 
+    /// The invocation counter a return frame carries (lenient: None when the return type has none).
+    fn counter_of(&self, inst: &Instance, f: &Frame) -> Option<i64> {
+        let c = self.content(f)?;
+        let v: serde_json::Value = serde_json::from_slice(&c).ok()?;
+        match inst.script.ret {
+            Ret::Record => v.get("n").and_then(|x| x.as_i64()),
+            Ret::Str => v.as_str().and_then(|s| s.strip_prefix("n=")).and_then(|r| r.split(' ').next()).and_then(|x| x.parse().ok()),
+            Ret::Int => v.as_i64(),
+            Ret::List => v.get(0).and_then(|x| x.as_i64()),
+            _ => None,
+        }
+    }
+
+    /// Runs with restarts: per incarnation of the serve loop, an instance is invoked at most once
+    /// per frame of its context and never for what it emitted itself - also when the replay after
+    /// a restart runs over its own earlier output.
+    fn check_dispatch_across_restarts(&mut self) -> R<()> {
+        let log = self.log.clone();
+        let pos_of: HashMap<Scru128Id, usize> = log.iter().enumerate().map(|(i, f)| (f.id, i)).collect();
+        let mut cuts: Vec<usize> = vec![0];
+        cuts.extend(self.restart_positions.iter().copied());
+        cuts.push(log.len());
+        for inst in self.instances.clone() {
+            if !inst.valid || inst.script.pulse.is_some() || inst.script.ret == Ret::Nothing {
+                continue;
+            }
+            let hid = inst.id.to_string();
+            let suffix = inst.script.suffix.clone().unwrap_or_else(|| ".out".to_string());
+            let ret_topic = format!("{}{}", inst.name, suffix);
+            for w in cuts.windows(2) {
+                let (a, b) = (w[0], w[1]);
+                let mut ns: Vec<(usize, i64)> = Vec::new();
+                for f in &log[a..b] {
+                    if f.topic != ret_topic || Self::meta_str(f, "handler_id").as_deref() != Some(&hid) {
+                        continue;
+                    }
+                    let Some(tp) = Self::meta_str(f, "frame_id").and_then(|t| log.iter().position(|x| x.id.to_string() == t)) else { continue };
+                    if Self::meta_str(&log[tp], "handler_id").as_deref() == Some(&hid) {
+                        return violation("dispatch/self-loop", format!("handler {} (id {}) was invoked for its own output {}", inst.name, inst.id, fmt_frame(&log[tp])));
+                    }
+                    if let Some(n) = self.counter_of(&inst, f) {
+                        ns.push((tp, n));
+                    }
+                }
+                ns.sort();
+                ns.dedup();
+                let foreign = |lo: usize, hi: usize| -> i64 {
+                    log[lo..hi]
+                        .iter()
+                        .filter(|f| f.context_id == inst.ctx)
+                        .filter(|f| Self::meta_str(f, "handler_id").as_deref() != Some(&hid))
+                        .filter(|f| !(f.topic == "xs.threshold" || f.topic == "xs.pulse"))
+                        .count() as i64
+                };
+                if let Some(&(p1, n1)) = ns.first() {
+                    let hi = foreign(0, p1) + 1 + 1;
+                    if n1 > hi {
+                        return violation(
+                            "dispatch/extra-invocation",
+                            format!(
+                                "handler {} (id {}, resume {:?}), serve-loop incarnation starting at log position {}: its invocation counter is {} at {} although only {} frames of its context precede that frame (own outputs excluded)",
+                                inst.name, inst.id, inst.script.resume, a, n1, log[p1].id, hi - 2
+                            ),
+                        );
+                    }
+                }
+                for w2 in ns.windows(2) {
+                    let (p1, n1) = w2[0];
+                    let (p2, n2) = w2[1];
+                    if p1 == p2 {
+                        continue;
+                    }
+                    let hi = foreign(p1 + 1, p2) + 1 + 1;
+                    if n2 - n1 < 1 || n2 - n1 > hi {
+                        let class = if n2 - n1 < 1 { "dispatch/missed-or-env-lost" } else { "dispatch/extra-invocation" };
+                        return violation(
+                            class,
+                            format!(
+                                "handler {} (id {}, resume {:?}), serve-loop incarnation starting at log position {}: its invocation counter went from {} (at {}) to {} (at {}) but {} frames of its context lie strictly between them (own outputs excluded)",
+                                inst.name, inst.id, inst.script.resume, a, n1, log[p1].id, n2, log[p2].id, hi - 2
+                            ),
+                        );
+                    }
+                }
+                if ns.len() >= 2 && a > 0 {
+                    self.w.probe("dispatch:counter-checked-after-restart");
+                }
+            }
+        }
+        let _ = pos_of;
+        Ok(())
+    }
+
     /// C17: what is active after each restart is exactly what the stream said was active before it.
     fn check_restarts(&mut self) -> R<()> {
         let log = self.log.clone();
@@ -1628,6 +1721,8 @@ impl Run {
         if self.restart_positions.is_empty() {
             self.check_handlers()?;
             self.check_generators()?;
+        } else {
+            self.check_dispatch_across_restarts()?;
         }
         self.check_commands()?;
         Ok(())
@@ -1853,7 +1948,13 @@ pub fn generate(seed: u64, prop: &str, thorough: bool) -> Plan {
             3 => SOp::Burst { n: rng.range(2, 6), ctx: rng.below(nctx + 1), other_ctx: rng.below(nctx + 1) },
             4 => SOp::Foreign { ctx: rng.below(nctx + 1) },
             5 => SOp::Tick { ms: *rng.pick(&[50u64, 1000]) },
-            _ => SOp::Quiesce,
+            _ => {
+                if prop == "C14" && rng.chance(50) {
+                    SOp::Restart { crash: false }
+                } else {
+                    SOp::Quiesce
+                }
+            }
         };
         ops.push(op);
     }
